@@ -111,16 +111,17 @@ CHECKS = {
          "icbrt_digits) incremented exactly when roundUpM says so on the virtual tail, at one third of the shifted scale. C11_cbrt_real states it over the reals: for ANY real c >= 0 with c^3 = n * 10^-scale the result's magnitude is c, scaled to the result's own last digit, rounded as mode and sign dictate (inexact case; no tie possible). "
          "Trusted: nth_root(3) = floor cube root as modelled (bisection; proved to be the floor root), Lean kernel, extractor, harness/driver.",
          "Lean 4 proof (floor root, true-root decisions, inline rounding = declarative rounding, scale, sign mirror) + exact rounding certificate oracle + differential correspondence", "DESIGN.md §5 C11"),
- "C12": ("PARTIAL BY NATURE. Kernel-checked for all inputs: the Newton step is exact and squares the residual (1 - x r' = (1 - x r)^2, r' <= 1/x), negation commutes with the reciprocal under the "
-         "mirrored mode (C12_neg_mirror), sign copying, zero/one shortcuts, and PARTIAL CORRECTNESS: C12_exit_accuracy - for every x > 0, precision p >= 1 and initial guess within 94% of 1/x, whenever the "
-         "loop stops (repeated iterate or alternation) the p+2-digit iterate R it returns is positive with |1 - x R| <= 10^-(p+1), i.e. correct to p+1 significant digits (with_prec has relative error <= "
-         "half a unit of its last digit; residuals obey e' = e^2 +- rho; fixed points and two-cycles of the rounded step have |e| <= 2 rho); and the headline bound C12_accuracy_on_termination: WHATEVER "
-         "impl_inverse returns differs from 1/x by strictly less than one unit of the result's last digit (the exit iterate lies within 0.61 units of its own p+2-th digit of 1/x; the final "
-         "rounding to p digits - the declarative rounding of C07 - moves it by at most 1 - 10^-k units, k >= 2 dropped digits). NOT proved (C12_inverse_full stays a proposition): termination for "
-         "every input/guess, and exactness when 1/x has at most p digits as a theorem (upstream itself carried a TODO). Those are decided per sampled input: every result of the real code is judged exactly (sign, |R x - 1| < unit*x, exact when 1/x has <= p digits) and "
-         "compared exactly with the model, which receives the real f64 guess through a hook and reports non-termination within 400 steps.",
-         "Trusted: f64 initial guess (value handed over by a hook; the premise |1 - x g| <= 94/100 is observed on every case: evidence tag +guess-beyond-94-percent, never seen), Lean kernel, extractor, harness/driver. Termination and the exact-when-representable clause are established per sampled input by an exact test, not for all inputs.",
-         "Lean 4 proof of partial correctness (accuracy whenever it terminates) and structure + exact per-input test for termination + differential correspondence", "DESIGN.md §5 C12"),
+ "C12": ("Kernel-checked Lean theorems for every x > 0, precision p >= 1, rounding mode, digit estimate satisfying EstOK (in particular the code's own) and initial guess within 94% of 1/x: "
+         "C12_loop_terminates - the iteration stops within p + 10 steps (five bring the residual below 1/10, p + 2 more below one unit of the last digit; from then on every rounded Newton step takes "
+         "one of at most two values - close_values_two_set, by the decade of 1/x - so the iterate repeats or alternates within three steps); C12_accuracy_on_termination / C12_inverse_total - WHATEVER "
+         "impl_inverse returns differs from 1/x by strictly less than one unit of the result's last digit (the exit iterate lies within 0.61 units of its own p+2-th digit of 1/x: with_prec has "
+         "relative error <= half a unit, residuals obey e' = e^2 +- rho, fixed points and two-cycles have |e| <= 2 rho; the final rounding - the declarative rounding of C07 - moves it by at most "
+         "1 - 10^-k units, k >= 2 dropped digits); the Newton step is exact and squares the residual; negation commutes with the reciprocal under the mirrored mode (C12_neg_mirror); sign copying; "
+         "zero/one shortcuts. Not a theorem: 'exactly 1/x whenever 1/x has at most p digits' - decided per generated input. Every result of the real code is judged exactly (sign, |R x - 1| < unit*x, "
+         "exact when 1/x has <= p digits) and compared exactly with the model, which receives the real f64 guess through a hook and reports non-termination within 400 steps.",
+         "Modelled rather than verified: the f64 initial guess (libm exp2; its value is handed over by a hook, and the premise |1 - x g| <= 94/100 of the theorems is observed on every generated input: "
+         "evidence tag +guess-beyond-94-percent, never seen; 64 of 50004 quick cases lie between 70% and 94% - the inputs built to push the guess through f64 underflow). Trusted: Lean kernel, extractor, harness/driver.",
+         "Lean 4 proof (termination and accuracy of the Newton iteration with rounding) + exact per-input test + differential correspondence", "DESIGN.md §5 C12"),
  "C13": ("PARTIAL BY NATURE. Lean model of exp (series loop with exact powers/factorials, impl_division per term - whose correct rounding is the theorem of C08 -, convergence test on the value "
          "trimmed to precision+5 digits, e^-x = 1/e^x). Kernel-checked for ALL arguments: C13_positive (whatever the routine returns is strictly positive - loop invariant over term, factorial, partial sum; "
          "positivity of impl_division, of the reciprocal and of the with_prec trimming - under the scalar condition EstOK on the digit estimate; C13_positive_code instantiates it with the code's own f64 estimate up to 2^40 bits, proved in C18_est_code), "
